@@ -28,7 +28,8 @@ pub type SH = Hypergraph<K, Ob, Op>;
 pub type SOH = OpenHypergraph<K, Ob, Op>;
 
 pub fn ff(table: Vec<usize>, target: usize) -> FF {
-    FiniteFunction::new(mk(table), target).expect("harness: FiniteFunction::new rejected in-range data")
+    assert!(table.iter().all(|&x| x < target), "harness: ff called with an out-of-range table {:?} / {}", table, target);
+    FiniteFunction::new(mk(table), target).unwrap_or_else(|| panic!("{} FiniteFunction::new rejected a table whose entries are all below the target", crate::functor_model::CONSTRUCTOR_VIOLATION))
 }
 
 pub fn sf<T>(v: Vec<T>) -> SF<T> {
@@ -39,14 +40,14 @@ pub fn icf(lists: &[Vec<usize>], target: usize) -> ICF {
     let sizes: Vec<usize> = lists.iter().map(|l| l.len()).collect();
     let values: Vec<usize> = lists.iter().flatten().copied().collect();
     IndexedCoproduct::from_semifinite(sf(sizes), ff(values, target))
-        .expect("harness: from_semifinite rejected consistent data")
+        .unwrap_or_else(|| panic!("{} IndexedCoproduct::from_semifinite rejected sizes that add up to the number of values", crate::functor_model::CONSTRUCTOR_VIOLATION))
 }
 
 pub fn ics<T: Clone>(lists: &[Vec<T>]) -> ICS<T> {
     let sizes: Vec<usize> = lists.iter().map(|l| l.len()).collect();
     let values: Vec<T> = lists.iter().flatten().cloned().collect();
     IndexedCoproduct::from_semifinite(sf(sizes), sf(values))
-        .expect("harness: from_semifinite rejected consistent data")
+        .unwrap_or_else(|| panic!("{} IndexedCoproduct::from_semifinite rejected sizes that add up to the number of values", crate::functor_model::CONSTRUCTOR_VIOLATION))
 }
 
 /// raw-field invariant of a segmented array + decoding into lists
@@ -120,13 +121,13 @@ pub fn to_strict_h(d: &Diagram) -> SH {
     let w = sf(d.nodes.iter().map(|&l| Ob(l)).collect());
     let x = sf(d.edges.iter().map(|e| Op(e.label)).collect());
     Hypergraph::new(icf(&src, n), icf(&tgt, n), w, x)
-        .expect("harness: Hypergraph::new rejected well-formed data")
+        .unwrap_or_else(|e| panic!("{} Hypergraph::new rejected well-formed data: {:?}", crate::functor_model::CONSTRUCTOR_VIOLATION, e))
 }
 
 pub fn to_strict(d: &Diagram) -> SOH {
     let n = d.nodes.len();
     OpenHypergraph::new(ff(d.s.clone(), n), ff(d.t.clone(), n), to_strict_h(d))
-        .expect("harness: OpenHypergraph::new rejected well-formed data")
+        .unwrap_or_else(|e| panic!("{} OpenHypergraph::new rejected well-formed data: {:?}", crate::functor_model::CONSTRUCTOR_VIOLATION, e))
 }
 
 /// deep well-formedness of a strict hypergraph from raw public fields; returns the model
@@ -230,8 +231,8 @@ impl Functor<K, Ob, Op, Ob, Op> for SFunctor {
 
     fn map_operations(&self, ops: Operations<K, Ob, Op>) -> SOH {
         let labels = un(&ops.x.0);
-        let a = decode_ics(&ops.a).expect("harness: Operations.a malformed");
-        let b = decode_ics(&ops.b).expect("harness: Operations.b malformed");
+        let a = decode_ics(&ops.a).unwrap_or_else(|e| panic!("{} the library passed a malformed segmented array of source types to the functor: {e}", crate::functor_model::CALLBACK_VIOLATION));
+        let b = decode_ics(&ops.b).unwrap_or_else(|e| panic!("{} the library passed a malformed segmented array of target types to the functor: {e}", crate::functor_model::CALLBACK_VIOLATION));
         let mut acc: SOH = OpenHypergraph::identity(ty(&[]));
         for (i, l) in labels.iter().enumerate() {
             let at: Vec<u32> = a[i].iter().map(|o| o.0).collect();
@@ -259,8 +260,8 @@ pub fn make_optic(t: &OpticTable) -> Optic<SFunctor, SFunctor, K, Ob, Op, Ob, Op
         SFunctor(t.rev.clone()),
         Box::new(move |ops: &Operations<K, Ob, Op>| {
             let labels = un(&ops.x.0);
-            let a = decode_ics(&ops.a).expect("harness: Operations.a malformed");
-            let b = decode_ics(&ops.b).expect("harness: Operations.b malformed");
+            let a = decode_ics(&ops.a).unwrap_or_else(|e| panic!("{} the library passed a malformed segmented array of source types to the functor: {e}", crate::functor_model::CALLBACK_VIOLATION));
+            let b = decode_ics(&ops.b).unwrap_or_else(|e| panic!("{} the library passed a malformed segmented array of target types to the functor: {e}", crate::functor_model::CALLBACK_VIOLATION));
             let lists: Vec<Vec<Ob>> = labels
                 .iter()
                 .enumerate()
@@ -323,8 +324,8 @@ pub fn op_eval(
         mk(inputs.to_vec()),
         |ops: SF<Op>, args: ICS<u64>| {
             let labels = un(&ops.0);
-            let args = decode_ics(&args).expect("harness: eval passed malformed arguments");
-            assert_eq!(labels.len(), args.len(), "harness: eval batch length mismatch");
+            let args = decode_ics(&args).unwrap_or_else(|e| panic!("{} eval passed a malformed segmented array of arguments to apply: {e}", crate::functor_model::CALLBACK_VIOLATION));
+            assert!(labels.len() == args.len(), "{} eval passed {} operations but {} argument lists to apply", crate::functor_model::CALLBACK_VIOLATION, labels.len(), args.len());
             let mut outs: Vec<Vec<u64>> = vec![];
             for (l, a) in labels.iter().zip(args.iter()) {
                 log.borrow_mut().push((l.0, a.clone()));
@@ -370,7 +371,7 @@ pub fn op_arrow(
     match r {
         Ok(a) => {
             let b = a.clone();
-            assert!(b.w == a.w && b.x == a.x, "harness: HypergraphArrow::clone changed the maps");
+            assert!(b.w == a.w && b.x == a.x, "{}clone-is-identical: HypergraphArrow::clone changed the maps", crate::functor_model::LIB_VIOLATION);
             ("Ok".to_string(), Some((b.is_monomorphism(), a.is_convex_subgraph())))
         }
         Err(e) => (
